@@ -270,8 +270,6 @@ class Evaluator(CallMixin, StmtMixin):
 
     def e_Set(self, e: ast.Set) -> Any:
         items = self.eval_elts(e.elts)
-        if all(not isinstance(i, Sym) for i in items):
-            return set(items)
         l = SList("concrete", items)
         l.pytype = "set"
         return l
@@ -371,13 +369,36 @@ class Evaluator(CallMixin, StmtMixin):
                         ks = self.kinds_from_annotation(n.annotation, c.module)
                         if ks is not None:
                             return ks
+        ann = self._param_annotation_for_attr(ci, attr)
+        if ann is not None:
+            ks = self.kinds_from_annotation(ann[0], ann[1])
+            if ks is not None and ann[2]:
+                ks = ks - {"NONE"} if len(ks) > 1 else ks     # `if p is None: p = []` style defaulting before the store
+            return ks
+        return None
+
+    def _param_annotation_for_attr(self, ci: ClassInfo, attr: str) -> Optional[Tuple[ast.expr, Module, bool]]:
+        """`self.attr = p` in __init__ with `p: T` -> (T, module, p is re-defaulted when None)."""
+        for c in self.prog.mro(ci):
+            if not isinstance(c, ClassInfo) or "__init__" not in c.methods:
+                continue
+            fn = c.methods["__init__"]
+            anns = {a.arg: a.annotation for a in fn.args.args + fn.args.kwonlyargs if a.annotation is not None}
+            stores = [n for n in ast.walk(fn) if isinstance(n, ast.Assign) and len(n.targets) == 1 and isinstance(n.targets[0], ast.Attribute)
+                      and n.targets[0].attr == attr and isinstance(n.targets[0].value, ast.Name) and n.targets[0].value.id == fn.args.args[0].arg]
+            if len(stores) == 1 and isinstance(stores[0].value, ast.Name) and stores[0].value.id in anns:
+                p = stores[0].value.id
+                redef = any(isinstance(n, ast.Assign) and any(isinstance(t, ast.Name) and t.id == p for t in n.targets) for n in ast.walk(fn))
+                return (anns[p], c.module, redef)
+            return None
         return None
 
     def elem_kinds_from_annotation(self, ci: ClassInfo, attr: str) -> Optional[FrozenSet[str]]:
         """`x: list[T]` / `Optional[list[T]]` -> kinds of T."""
+        pa = self._param_annotation_for_attr(ci, attr)
         for c in self.prog.mro(ci):
-            if isinstance(c, ClassInfo) and attr in c.annotations:
-                ann = c.annotations[attr]
+            if (isinstance(c, ClassInfo) and attr in c.annotations) or (pa is not None and c is ci):
+                ann = c.annotations[attr] if isinstance(c, ClassInfo) and attr in c.annotations else pa[0]  # type: ignore[index]
                 if isinstance(ann, ast.Constant) and isinstance(ann.value, str):
                     try:
                         ann = ast.parse(ann.value, mode="eval").body
